@@ -39,7 +39,7 @@ def run(chk, tier, seed):
             nvals = len(U["roots"][fam["roots"][i]]["vals"])
             for j in range(fam["nver"]):
                 for idx in range(min(nvals, 2 if tier == "quick" else 4)):
-                    for meth in ("echo", "by_ref", "mixed", "cb", "mkcb"):
+                    for meth in ("echo", "by_ref", "mixed", "cb", "mkcb", "wide"):
                         add("abi_call %d %d %d %s %d" % (f, i, j, meth, idx), f=f, i=i, j=j, meth=meth, idx=idx)
                 add("abi_call %d %d %d passable 0" % (f, i, j), f=f, i=i, j=j, meth="passable", idx=0)
                 add("abi_call %d %d %d added 0" % (f, i, j), f=f, i=i, j=j, meth="added", idx=0)
@@ -97,6 +97,17 @@ def run(chk, tier, seed):
         tI, tJ, cx = TG.coq_ty(ri["ty"]), TG.coq_ty(rj["ty"]), TG.coq_val(x)
         lc = A.logged_canon(lg, m["meth"])
         lterm = "(Some %s)" % lc if lc else "None"
+        if m["meth"] == "wide":
+            # arguments 32 and 33 of a 34-argument method are references to the versioned type (mask bits beyond 31)
+            w = [e_ for e_ in lg.split(" ;; ") if e_.startswith("wide ")]
+            parts = w[0][5:].split(" ~~ ") if w else []
+            for q_, pq in enumerate(parts[:2] if len(parts) == 2 else [None, None]):
+                t_ = "agree_byref_seen %d %s %s %s %s" % (e, tI, tJ, cx, "(Some %s)" % pq if pq else "None")
+                terms.append((m["n"] * 10 + 1 + q_ + 1000000, t_))
+                oterms.append((m["n"] * 10 + 1 + q_ + 1000000, t_))
+            if kind == "OK" and rest != "7038":
+                chk.violations.append(("the 32 plain arguments of a 34-argument method arrive changed: " + rest[:60], base))
+            continue
         if m["meth"] in ("cb", "mkcb"):
             import re as _re
             ents = [e_ for e_ in lg.split(" ;; ") if e_]
@@ -133,7 +144,12 @@ def run(chk, tier, seed):
     obad, oerrs = C.coq_eval_bad("C10o", A.HEADER, oterms, shard=100)
     for ids, out in errs + oerrs:
         chk.broken.append("shard failed to evaluate (cases %s..): %s" % (ids[:3], out[-400:]))
-    byn = {m["n"]: cid for cid, m in meta.items()}
+    byn0 = {m["n"]: cid for cid, m in meta.items()}
+
+    class _Byn(dict):
+        def __missing__(self, i):          # ids of the two `wide` terms of case n are 1000000 + 10 n + {1, 2}
+            return byn0[(i - 1000000) // 10]
+    byn = _Byn(byn0)
     for i in bad[:12]:
         m = meta[byn[i]]
         chk.broken.append("correspondence C10 case %s (%s, caller v%s, impl v%s): model and implementation disagree; observed %s" % (
